@@ -12,6 +12,8 @@ PANICKY = re.compile(
     r"(::unwrap$|::expect$|::unwrap_err$|::expect_err$|::unwrap_unchecked$|::index$|::index_mut$|panicking::|::split_at(_mut)?$|"
     r"::copy_from_slice$|::clone_from_slice$|::chunks_exact|"
     r"Vec::<.*>::(remove|insert|swap_remove|drain|split_off)$|::pow$|::abs$|div_euclid$|rem_euclid$|"
+    r"String::(truncate|insert|insert_str|remove|split_off|drain|replace_range)$|<impl str>::(split_at|split_at_mut)$|"
+    r"VecDeque::<.*>::(remove|insert|swap|range|drain)$|RefCell::<.*>::(borrow|borrow_mut)$|::step_by$|::chunks$|::windows$|"
     r"::swap$|::rotate_(left|right)$|::copy_within$|::first_chunk$|::last_chunk$|::from_utf8_unchecked$|"
     r"::get_unchecked(_mut)?$|::add$|::sub$|::offset$|::read$|::write$|::assume_init|transmute)")
 
@@ -227,6 +229,19 @@ def contract_call(eng, st, site, func, args, dty):
     item = func["item"]
     frame, bb, t = site
     label = eng.callee_label(func)
+    uc = getattr(eng, "used_contracts", None)
+    if uc is not None:
+        # which contract entries the proof applies, and whether any call site may pass a zero size argument
+        key = ("Reader" if func["trait"].endswith("Reader") else "Writer", item)
+        zero = False
+        if item in ("skip_bytes", "subreader", "bytes", "write_bytes", "write_bytes_at") and len(args) > 1:
+            a1 = args[1]
+            n1 = a1.lin if isinstance(a1, VInt) else (a1.len if isinstance(a1, VSlice) else None)
+            if n1 is None:
+                sl = as_slice(eng, st, a1)
+                n1 = sl.len if sl is not None else None
+            zero = n1 is None or not eng.ent(st, c_le(Lin.const(1), n1))
+        uc[key] = uc.get(key, False) or zero
     if func["trait"].endswith("Reader"):
         view = reader_view(eng, st, args[0])
         if view is None:
